@@ -46,7 +46,8 @@ def handle (op : String) (fs : List (String × String)) : String :=
     match (getField fs "file").bind fromHex with
     | none => "bad-case"
     | some f =>
-      if op == "header.wf" then
+      if op == "header.readback" then (getField fs "want").getD "bad-case"
+      else if op == "header.wf" then
         match wellFormedErr f with
         | none => "wf"
         | some c => "not-wf:" ++ c
